@@ -106,7 +106,45 @@ def prepare(m):
 
 
 def repo_tests(m, ov):
-    cmd = ["go", "test", "-vet=off", "-count=1", "-overlay", ov] + m["repo_tests"]
+    """Runs the repository's tests against the variant. Some of the repository's tests are
+    timing dependent and fail now and then on a loaded machine also WITHOUT any mutant
+    (client.TestSubChannelDispute failed 3 of 6 runs on the unmodified tree while checks were
+    running). Therefore the tests that failed are repeated on their own, up to three times; the
+    mutant counts as caught only if some test failed in every attempt (a run that hit the
+    timeout is not repeated)."""
+    r = repo_tests_once(m, ov, m["repo_tests"], None)
+    if r["pass"] or r["build_failed"] or r["rc"] is None:
+        return r
+    first = {k: r[k] for k in ("rc", "wall_s", "failed_tests", "failed_packages")}
+    pkgs = ["./" + p[len("perun.network/go-perun/"):] for p in r["failed_packages"]] or m["repo_tests"]
+    tops = sorted({t.split("/")[0] for t in r["failed_tests"]})
+    still = set(tops) if tops else None
+    wall, attempts, last = r["wall_s"], 0, r
+    for _ in range(3):
+        attempts += 1
+        last = repo_tests_once(m, ov, pkgs, "^(%s)$" % "|".join(sorted(still)) if still else None)
+        wall += last["wall_s"]
+        if last["pass"]:
+            still = set()
+            break
+        if still is not None:
+            again = {t.split("/")[0] for t in last["failed_tests"]}
+            still = (still & again) if again else still
+            if not still:
+                break
+        if last["rc"] is None:
+            break
+    caught = not last["pass"] and (still is None or bool(still))
+    out = dict(last)
+    out.update({"pass": not caught, "wall_s": round(wall, 1), "first_attempt": first, "retries": attempts,
+                "flaky": not caught, "failed_tests": sorted(still) if still else ([] if not caught else last["failed_tests"])})
+    if not caught:
+        out["tail"] = ""
+    return out
+
+
+def repo_tests_once(m, ov, pkgs, only):
+    cmd = ["go", "test", "-vet=off", "-count=1", "-overlay", ov] + (["-run", only] if only else []) + pkgs
     rc, out, wall = run(cmd, REPO, BASE_ENV, REPO_TEST_TIMEOUT)
     failed = sorted(set(re.findall(r"^--- FAIL: (\S+)", out, re.M)))
     failed_pkgs = sorted(set(re.findall(r"^(?:FAIL|---)\s+(perun\.network/\S+)", out, re.M)))
@@ -257,7 +295,7 @@ def write_md(results, meta, baselines):
         if rt is None:
             rts = "not run"
         elif rt["pass"]:
-            rts = "yes"
+            rts = "yes" + (" (first attempt failed in %s, passed when repeated: timing-dependent test)" % ", ".join(rt["first_attempt"]["failed_tests"][:2]) if rt.get("flaky") else "")
         elif rt["build_failed"]:
             rts = "BUILD FAILED"
         else:
@@ -281,6 +319,7 @@ def main():
     ap = argparse.ArgumentParser()
     ap.add_argument("--only", default="", help="comma separated id prefixes")
     ap.add_argument("--skip-repo-tests", action="store_true")
+    ap.add_argument("--repo-tests-only", action="store_true", help="refresh only the repository-test column (keeps the check results of results.json)")
     ap.add_argument("--in-place", action="store_true", help="run ./check in /verif itself (evidence/replays are restored afterwards)")
     ap.add_argument("--tier", default="quick")
     ap.add_argument("--rebaseline", action="store_true", help="re-run the baselines even if /repo and the harnesses are unchanged")
@@ -291,7 +330,7 @@ def main():
     assert len(ids) == len(set(ids)), "duplicate mutant ids"
     only = [p for p in a.only.split(",") if p]
     sel = [m for m in mutants if not only or any(m["id"].startswith(p) for p in only)]
-    root = VERIF if a.in_place else make_mirror()
+    root = VERIF if (a.in_place or a.repo_tests_only) else make_mirror()
     res_path = os.path.join(HERE, "results.json")
     old = {}
     old_meta = {}
@@ -334,6 +373,11 @@ def main():
         elif m["id"] in old and "repo_tests" in old[m["id"]]:
             r["repo_tests"] = old[m["id"]]["repo_tests"]
             r["caught_by_repo_tests"] = old[m["id"]].get("caught_by_repo_tests")
+        if a.repo_tests_only:
+            keep = dict(old.get(m["id"], {}))
+            keep.update(r)
+            new[m["id"]] = keep
+            continue
         if r.get("repo_tests", {}).get("build_failed"):
             r["status"], r["note"] = "does-not-compile", r["repo_tests"]["tail"][-400:]
             new[m["id"]] = r
@@ -356,13 +400,13 @@ def main():
     meta = dict(old_meta)
     meta.update({"when": time.strftime("%Y-%m-%d %H:%M:%S"), "repo_head": head, "tier": a.tier,
                  "where": "in /verif (--in-place)" if a.in_place else "in a private mirror of the framework (.build/selftest/_root)"})
-    if not only and not a.skip_repo_tests:
+    if not only and not a.skip_repo_tests and not a.repo_tests_only:
         meta["full_run_wall"] = "%.0f s (%.1f min)" % (wall, wall / 60)
     merged = [new.get(x["id"]) or old.get(x["id"]) for x in mutants]
     merged = [x for x in merged if x]
     json.dump({"meta": meta, "baselines": baselines, "results": merged}, open(res_path, "w"), indent=1)
     write_md(merged, meta, baselines)
-    ran = [r for r in new.values() if not r["pending"] and r["status"] == "ok"]
+    ran = [r for r in new.values() if not r["pending"] and r["status"] == "ok" and "check_exit" in r]
     missed = [r["id"] for r in ran if not r.get("detected")]
     log("ran %d mutants in %.0fs: %d detected, missed: %s" % (len(ran), wall, len(ran) - len(missed), missed or "none"))
     sys.exit(0 if not missed else 1)
